@@ -773,6 +773,17 @@ def family_values():
                          '\tvrt.A("C13", a.VID() != c.VID() && (a.VID() == Base+1 || a.VID() == Base+2), "each written occurrence has its own value")\n\tvrt.Cover("values-checked")\n}\n'),
     }
     specs.append(RawSpec(files, 'wire.InterfaceValue given a call: evaluated once at initialisation', family='values'))
+    # InterfaceValue has no syntactic whitelist: a function literal is a legal value; identifiers in it that denote
+    # no object (the blank identifier on the left of an assignment) must not trip the accessibility check (D16)
+    files = {
+        'providers.go': 'package {PKG}\n\ntype Runner interface{ Run() int }\ntype RunFunc func() int\n\nfunc (f RunFunc) Run() int { return f() }\n\nvar Sink = 41\n',
+        'wire.go': ('//go:build wireinject\n// +build wireinject\n\npackage {PKG}\n\nimport "github.com/google/wire"\n\n'
+                    'func Inject() Runner {\n\tpanic(wire.Build(wire.InterfaceValue(new(Runner), RunFunc(func() int { _ = Sink; return Sink + 1 }))))\n}\n'),
+        'zz_driver.go': ('//go:build !wireinject\n// +build !wireinject\n\npackage {PKG}\n\nimport "example.com/corpus/vrt"\n\nfunc VDrive() {\n'
+                         '\tvrt.A("C13", Inject().Run() == 42, "an interface value written as a function literal")\n\tvrt.Cover("values-checked")\n}\n'),
+    }
+    specs.append(RawSpec(files, 'wire.InterfaceValue given a function literal that assigns to the blank identifier', family='values'))
+    specs[-1].extra_props = ['C20']
     # rejected forms: each in its own package
     rej = [
         ('function call', 'type T struct{ ID int }\nfunc mk() T { return T{} }', 'wire.Value(mk())', 'T'),
@@ -927,6 +938,14 @@ def family_reject():
             'wire.go': '//go:build wireinject\n// +build wireinject\n\npackage {PKG}\n\nimport "github.com/google/wire"\n\n%s\nfunc Inject(%s) %s {\n\tpanic(wire.Build(%s))\n}\n' % (setvars, args, rty, items),
         }
         specs.append(RawSpec(files, 'must be rejected: ' + lab, expect='reject', reject_props=props, family='reject'))
+    # functions that call wire.Build but are not of the injector form (C20: the refusal needs a position; see D17)
+    for lab, body in (('injector with a statement besides the wire.Build call', '\t_ = 42\n\tpanic(wire.Build(NewA))\n'),
+                      ('injector with two wire.Build calls', '\tpanic(wire.Build(NewA))\n\tpanic(wire.Build(NewA))\n')):
+        files = {
+            'providers.go': 'package {PKG}\n\n' + base + extra,
+            'wire.go': '//go:build wireinject\n// +build wireinject\n\npackage {PKG}\n\nimport "github.com/google/wire"\n\nfunc Inject() A {\n%s}\n' % body,
+        }
+        specs.append(RawSpec(files, 'must be rejected: ' + lab, expect='reject', reject_props=['C20'], family='reject'))
     return specs
 
 
